@@ -40,6 +40,10 @@ func genC16Page(r *Rand, g *Gen, idx int) *c16Page {
 	}
 	var parts []string
 	n := 1 + r.Intn(4)
+	wide := r.Chance(5)
+	if wide {
+		n = 12 + r.Intn(8) // many v-once siblings: positions past one digit
+	}
 	tags := []string{"span", "b", "p", "style", "em"}
 	for i := 0; i < n; i++ {
 		tag := Pick(r, tags)
@@ -48,6 +52,9 @@ func genC16Page(r *Rand, g *Gen, idx int) *c16Page {
 			before[m] = true
 		}
 		which := r.Intn(27)
+		if wide {
+			which = Pick(r, []int{0, 0, 0, 1, 4, 7}) // simple placements, side by side under one parent
+		}
 		kindNames := []string{"page top level", "loop body", "component included k times", "two components", "side by side", "unreachable branch", "component inside a loop",
 			"on the loop element", "component reached directly and through a wrapper", "nested loops", "shorthand component tag", "component with <template> root", "v-if branch taken",
 			"slot content, component used twice", "same-name components in different directories", "else-branch inside a loop", "v-once on the <template> root of a component",
@@ -240,6 +247,17 @@ func genC16Page(r *Rand, g *Gen, idx int) *c16Page {
 		if r.Chance(40) {
 			parts = append(parts, g.snippetPlain())
 		}
+	}
+	if r.Chance(3) {
+		// more v-once elements in one template than fit a byte-sized counter
+		var many []string
+		for k := 0; k < 300; k++ {
+			m := mk()
+			many = append(many, fmt.Sprintf(`<b v-once>%s</b>`, m))
+			p.markers[m] = func(int, bool) int { return 1 }
+			p.kinds[m] = "one of 300 v-once elements in one template"
+		}
+		parts = append(parts, `<div class="many">`+strings.Join(many, "")+`</div>`)
 	}
 	p.body = "<main>\n" + strings.Join(parts, "\n") + "\n</main>\n"
 	if r.Chance(12) {
